@@ -113,7 +113,7 @@ Kinds(ep) == IF ep \in {"otlp-http-traces", "otlp-grpc-traces"} THEN {"span", "p
 
 Min2(a, b) == IF a < b THEN a ELSE b
 Shapes(ep) == IF ep = "event" THEN {<<k>> : k \in Kinds(ep)}
-              ELSE IF ep = "peer-batch" THEN UNION {[1 .. n -> Kinds(ep)] : n \in 0 .. Min2(MaxEvents, 2)}
+              ELSE IF ep = "peer-batch" THEN UNION {[1 .. n -> Kinds(ep)] : n \in 0 .. Min2(MaxEvents - 1, 2)}   \* same handler as "batch"
               ELSE UNION {[1 .. n -> Kinds(ep)] : n \in 0 .. MaxEvents}
 
 \* the ways n events are spread over the resources of an OTLP request (n = 0:
